@@ -180,14 +180,24 @@ class GenerateWasmVisitor(Visitor.DefaultVisitor):
     def v_BinaryInstruction(self, bi: LinearIR.BinaryInstruction, ctx: Context):
         assert ctx.Code
 
-        if isinstance(bi.Type, LinearIR.IntegerType):
+        # Comparisons yield an int whatever they compare, so their operation
+        # type (and signedness) is that of the operands, not of the result
+        operandType = bi.Type
+        if bi.OpCode in {
+            LinearIR.OpCode.CMP_EQ,
+            LinearIR.OpCode.CMP_LT,
+            LinearIR.OpCode.CMP_GT,
+        }:
+            operandType = bi.Values[0].Type
+
+        if isinstance(operandType, LinearIR.IntegerType):
             operationType = "i32"
-            unsigned = bi.Type.Unsigned
-        elif isinstance(bi.Type, LinearIR.FloatType):
+            unsigned = operandType.Unsigned
+        elif isinstance(operandType, LinearIR.FloatType):
             operationType = "f32"
         else:
             raise RuntimeError(
-                f"Unsupported type for binary operation: {bi.Type}"
+                f"Unsupported type for binary operation: {operandType}"
             )
 
         for value in bi.Values:
